@@ -684,6 +684,8 @@ class Interp:
             if isinstance(v, (int, float, Fraction)) and not isinstance(v, bool):
                 return v != 0
             return v
+        if n == 'std::complex' and isinstance(v, (list, tuple)) and len(v) == 2:
+            return Cx(v[0], v[1])        # braced initialisation { re, im }
         if n == 'std::complex' and not isinstance(v, Cx) and is_num(v):
             return Cx(v, 0 if self.mode != 'float' else 0.0)
         if n in ('Eigen::Matrix', 'Eigen::Array') and isinstance(v, Mat):
